@@ -14,6 +14,7 @@ RULE = ("each case runs a structure (repository proteins, cut-outs, chimeras; wi
         "--protonate-all, atoms with one heavy neighbour are excluded as frame-dependent by design). "
         "Non-trivial: >= 20 hydrogens added and >= 1 regular residue with a side-chain complement "
         "claim; distinct = distinct (structure digest, pose, options).")
+RULE = RULE + " Round 8: 25 % of the built cases write ions (CD, CA, HG, ZN) before the protein; the moved frame's first conformation is written with write_pdb_for_atoms and read back by column."
 ASSUMPTIONS = ["the regular-geometry precondition is decided by the harness from the perceived bonds",
                "labels omit insertion codes, so inputs with insertion-code twins are not used for the warning clause (their hydrogen counts are judged)"]
 TIMEOUT = {"quick": 2400, "thorough": 14400}
